@@ -17,6 +17,7 @@ type FieldUse struct {
 	At    ssa.Instruction // the instruction performing the operation
 	Val   ssa.Value       // stored value / sent value / map key, depending on Kind
 	Load  ssa.Value       // the loaded field value (when the operation goes through a load)
+	Use   ssa.Instruction // for plain loads: the instruction consuming the loaded copy
 }
 
 func (u FieldUse) IsWrite() bool {
@@ -142,6 +143,13 @@ func classifyLoaded(fn *ssa.Function, f *types.Var, addr, base ssa.Value, ld ssa
 				}
 			} else {
 				u.Kind = "arg"
+			}
+		}
+		if u.Kind == "load" || u.Kind == "arg" {
+			// a plain read happens where the field is loaded, not where the copy is used
+			if li, ok := ld.(ssa.Instruction); ok {
+				u.Use = u.At
+				u.At = li
 			}
 		}
 		add(u)
